@@ -499,6 +499,18 @@ type rgen struct {
 	budget int
 	noHost bool // keep the host-panic statement out (a panic outside every try ends the run at once)
 	nfns   int  // named functions that `cf` may call (0: no such statement)
+	vias   bool // calls are rendered as functions, methods, static methods, closures or constructors at random
+}
+
+func (x *rgen) via(body []Stmt) string {
+	if !x.vias {
+		return ""
+	}
+	v := viaKinds[x.r.Intn(len(viaKinds))]
+	if v == "k" && returnsValue(body) {
+		v = "m"
+	}
+	return v
 }
 
 func (x *rgen) userClass() int {
@@ -559,7 +571,8 @@ func (x *rgen) block(depth int, inLoop, inCatch, guarded bool) []Stmt {
 		case p < 66:
 			res = append(res, Stmt{K: "l", N: 1 + x.r.Intn(3), Body: x.block(depth, true, inCatch, guarded)})
 		case p < 74:
-			res = append(res, Stmt{K: "f", Body: x.block(depth, false, false, guarded)})
+			fb := x.block(depth, false, false, guarded)
+			res = append(res, Stmt{K: "f", Body: fb, Via: x.via(fb)})
 		case depth > 0:
 			x.b.tryID++
 			s := Stmt{K: "y", N: x.b.tryID}
